@@ -83,7 +83,13 @@ func (concCore) handle(ws []string) string {
 			go func(k int) {
 				defer wg.Done()
 				for i := 0; i < nmsg; i++ {
-					pl := make([]byte, 8+size)
+					sz := size
+					if size >= 100000 {
+						// mixed sizes: large and small packets alternate irregularly, so that a small packet
+						// can straddle the end of the ring after a larger one did
+						sz = (i*i*37 + k*911 + i*131) % (size - 100000 + 1)
+					}
+					pl := make([]byte, 8+sz)
 					binary.BigEndian.PutUint32(pl[0:], uint32(k))
 					binary.BigEndian.PutUint32(pl[4:], uint32(i))
 					for j := 8; j < len(pl); j++ {
@@ -168,6 +174,11 @@ func genConc(seed int64, n int, tier string, w *bufio.Writer) {
 		size := pick(r, []int{0, 10, 100, 900, 1500, 3000, 5000, 7000})
 		if tier != "thorough" && size > 3000 && nmsg > 40 {
 			nmsg = 40
+		}
+		if i%3 == 2 {
+			size = 100000 + pick(r, []int{1200, 3007, 6000})
+			nmsg = 120 + r.Intn(200)
+			npub = 1 + r.Intn(3)
 		}
 		fmt.Fprintf(w, "conc run %d %d %d %d %d\n", npub, nmsg, size, r.Intn(3), 16384)
 	}
